@@ -15,6 +15,7 @@ import sys
 
 HERE = os.path.dirname(os.path.abspath(__file__))
 sys.path.insert(0, os.path.join(HERE, "..", "lib"))
+sys.path.insert(0, os.path.join(HERE, "..", "oracle"))
 import binrun
 import common
 import hydrorun
@@ -154,6 +155,12 @@ def main():
             cfgt = [j for j in jobs if j[0] == tag][0]
             rp = dict(cfg=cfgt[1], threads=cfgt[2], jitter=cfgt[3], steps=steps, reference=dict(cfgt[1], nsub=[1, 1, 1]))
             for k in range(0, steps + 1):
+                if k == 1 and recs[k]["dt_used"] != refrecs[k]["dt_used"]:
+                    # the first step size is the minimum over all cells of a function of the (identical) initial state: a
+                    # minimum does not depend on the order in which subgrids and threads contribute
+                    chk.violation("layout/first-timestep", "first hydro step is %r s on layout %s with %d threads and %r s on the undivided grid with one thread | %s" % (
+                        recs[k]["dt_used"], cfgt[1]["nsub"], cfgt[2], refrecs[k]["dt_used"], label0), rp)
+                    break
                 if k > 0 and recs[k]["dt_used"] != refrecs[k]["dt_used"]:
                     tot["dt_mismatch_skipped"] += 1
                     break
@@ -176,6 +183,47 @@ def main():
             import shutil
             for tag, (rr, recs, rd) in results.items():
                 shutil.rmtree(rd, ignore_errors=True)
+    # ThreadSanitizer leg: "independent of the number of threads" also means that no two threads update the same datum
+    # unsynchronised (e.g. a shared minimum for the time step): a race is reported whether or not the update was lost
+    import tsan_classify
+    try:
+        exe_tsan = binrun.binary("tsan")
+    except common.BuildError as e:
+        chk.inconclusive_because(str(e)); chk.finish()
+    tsan_counts = dict(runs=0, reports=0, benign=0)
+
+    def tsan_run(j):
+        r = rng.fork("t%d" % j)
+        nsub = [r.choice([2, 2, 3, 4]) for _ in range(3)]
+        ncell = [2 * n for n in nsub]
+        sides = [1., 1., 1.]
+        blocks, kind = hydrorun.gen_state(r, ncell, ([0., 0., 0.], sides), kind=r.choice(["boxes", "shock"]))
+        cfg = dict(ncell=ncell, nsub=nsub, periodic=[r.chance(0.5) for _ in range(3)], box=([0., 0., 0.], sides), blocks=blocks, gamma=5. / 3., cfl=0.2, total_time=1e-3)
+        rd = os.path.join(root, "tsan%03d" % j)
+        os.makedirs(rd, exist_ok=True)
+        env = {"TSAN_OPTIONS": "halt_on_error=0:ignore_noninstrumented_modules=1:report_signal_unsafe=0:log_path=%s/tsan.log" % rd}
+        th = r.choice([2, 4, 8])
+        rr, recs = hydrorun.run(exe_tsan, rd, cfg, threads=th, steps=2, jitter="%d:100:500" % r.randint(1, 10 ** 6), dump=False, extra_env=env, timeout=600)
+        return cfg, th, rr, tsan_classify.classify_dir(rd), rd
+
+    with cf.ThreadPoolExecutor(max_workers=4) as ex:
+        for cfg, th, rr, reports, rd in ex.map(tsan_run, range(4 if quick else 40)):
+            rp = dict(cfg=cfg, threads=th, jitter=None, steps=2, tsan=True)
+            if rr.timed_out:
+                chk.inconclusive_because("TSan run: watchdog fired twice (nsub=%s threads=%d)" % (cfg["nsub"], th))
+                continue
+            tsan_counts["runs"] += 1
+            for rep in reports:
+                tsan_counts["reports"] += 1
+                if rep["benign"]:
+                    tsan_counts["benign"] += 1
+                else:
+                    chk.violation("tsan/" + rep["key"], rep["summary"] + " | nsub=%s threads=%d" % (cfg["nsub"], th), dict(rp, report=rep["text"][:4000]))
+            if rr.rc not in (0, 66) and not reports:
+                chk.violation("run/abnormal-exit", "TSan run exit status %s (nsub=%s threads=%d) | %s" % (rr.rc, cfg["nsub"], th, (rr.err or "")[-200:].replace("\n", " ")), rp)
+    tot["tsan_runs"] = tsan_counts["runs"]
+    tot["tsan_reports"] = tsan_counts["reports"]
+    tot["tsan_benign"] = tsan_counts["benign"]
     cov = chk.coverage
     cov["evaluations"] = tot["comparisons"]
     cov["distinct_nontrivial"] = len(distinct)
@@ -184,9 +232,10 @@ def main():
                    "(state, layout, threads) runs that were compared")
     cov["monitor_counters"] = tot
     cov["max_difference_over_tolerance"] = maxratio
-    chk.assumptions += ["states after step k are only compared while the step sizes of both runs are bitwise equal",
+    chk.assumptions += ["states after step k are only compared while the step sizes of both runs are bitwise equal (the FIRST step size must be equal: clause layout/first-timestep; "
+                        "later ones may legitimately differ when round-off moves the CFL minimum across a power-of-two boundary of the time line: counted, not judged)",
                         "primitive variables are compared only in cells with mass above 1e-6 of the mean"]
-    chk.require_nonzero(comparisons=tot["comparisons"], bitwise=tot["bitwise_pairs"])
+    chk.require_nonzero(comparisons=tot["comparisons"], bitwise=tot["bitwise_pairs"], tsan_runs=tot["tsan_runs"])
     chk.finish()
 
 
